@@ -269,6 +269,36 @@ def cli_subset(ctx, dec, b, spec, scratch, tag):
         ctx.violate('cli-subset-differs', 'CLI subset %r wrote %d subsets' % (I, len(got)), dict(spec, indices=I))
 
 
+def cli_subset_alt_tables(ctx, scratch):
+    """`pybufrkit -t <tables root> subset ...`: decoder AND encoder of the command work with the given tables"""
+    from mon.cli import run_cli, alt_tables_root, alt_message
+    from pybufrkit.decoder import Decoder
+    root = alt_tables_root(scratch)
+    decalt = Decoder(tables_root_dir=root)
+    for comp in (False, True):
+        msg = alt_message(ctx.rng, root, nsub=4, compressed=comp)
+        src = os.path.join(scratch, 'alt_in_%d.bufr' % comp)
+        dst = os.path.join(scratch, 'alt_out_%d.bufr' % comp)
+        with open(src, 'wb') as f:
+            f.write(msg.bytes)
+        spec = dict(origin='alt-tables', compressed=comp, hex=msg.bytes.hex(), indices=[2, 0])
+        ctx.count('cli_subset_alt_tables_runs')
+        ctx.evaluated(('cli-alt', msg.bytes.hex()), True)
+        so, se, exc, code = run_cli(['-t', root, 'subset', '2,0', src, dst])
+        if exc is not None or se.strip() or not os.path.exists(dst):
+            ctx.violate('cli-subset-fails/tables-root-option', 'pybufrkit -t <root> subset failed: %r %s' % (exc, se[:150]), spec)
+            continue
+        try:
+            want = [td_of(decalt.process(msg.bytes)).decoded_values_all_subsets[k] for k in (0, 2)]
+            got = td_of(decalt.process(open(dst, 'rb').read())).decoded_values_all_subsets
+        except Exception as e:
+            ctx.violate('cli-subset-differs/tables-root-option', 'output of pybufrkit -t <root> subset cannot be decoded with those tables: %r' % (e,), spec)
+            continue
+        if repr(got) != repr(want):
+            ctx.violate('cli-subset-differs/tables-root-option', 'pybufrkit -t <root> subset 2,0 wrote %r, the selected subsets are %r'
+                        % (got, want), spec)
+
+
 def run(ctx):
     from pybufrkit.decoder import Decoder
     from pybufrkit.encoder import Encoder
@@ -302,6 +332,8 @@ def run(ctx):
                     cli_subset(ctx, dec, b, dict(origin='corpus', file=name), scratch, 'f%d' % i)
                 except Exception as e:
                     ctx.count('cli_harness_skip')
+        if ctx.shard % 4 == 0:
+            cli_subset_alt_tables(ctx, scratch)
         k = 0
         for nsub in (3, 4, 5):
             for name, msg in cases.same_layout_cases(rng, nsub=nsub):
